@@ -29,6 +29,7 @@ func c04(r *core.Report) {
 	c04Anchors(r)
 	c04IdentFail(r)
 	c04DecodeVerbatim(r)
+	c04ShadowedCase(r)
 }
 
 // c04Anchors: two checks whose mechanism is part of what they check.
